@@ -95,4 +95,80 @@ Section Dir2.
     split; [exact H1|]. intros c Hc. pose proof (proj1 (forallb_forall _ _) H2 c Hc) as Hpl. unfold prr_plain in Hpl.
     apply andb_prop in Hpl. destruct Hpl as [A B]. split; intros E; rewrite E in *; discriminate.
   Qed.
+
+  (* ---- one child ------------------------------------------------------------------------------------------------ *)
+  Lemma prr_kid_flags p j c : rname c <> [0] -> rname c <> [1] ->
+    let R := prr_pad (mrr_drec v dt (mrr_kid_spec t L (p ++ [j]) c)) in
+    ps_is_dir R = r_is_dir c /\ prr_is_dots R = false /\ ps_is_dot R = false /\ Codec.ident R = rname c.
+  Proof.
+    intros H0 H1. cbv zeta.
+    assert (E : Codec.ident (prr_pad (mrr_drec v dt (mrr_kid_spec t L (p ++ [j]) c))) = rname c) by (destruct c; reflexivity).
+    unfold prr_is_dots, ps_is_dot, ps_is_dotdot. rewrite E, (ps_zlist_eqb_false _ _ H0), (ps_zlist_eqb_false _ _ H1).
+    split; [destruct c; reflexivity|]. auto.
+  Qed.
+
+  Lemma prr_kid_step p m dl kids j c st d done last :
+    mrr_node_at t p = Some (RDir m dl kids) -> nth_error kids j = Some c ->
+    prr_skip_ok d (w_cur st) ->
+    (forall a, In a (w_cur st) -> ps_lt (Codec.ident (q_rec a)) (rname c) = true) ->
+    prr_tinv (w_blocks st) done -> ~ In (p ++ [j]) done -> w_ver st = prr_ver_of v ->
+    exists st1 last1,
+      prr_record img' d (st, last) (Master.ms_enc (mrr_drec v dt (mrr_kid_spec t L (p ++ [j]) c))) = POk (st1, last1) /\
+      (forall r, prr_spec_kids v dt t L p j (c :: r) st = prr_spec_kids v dt t L p (S j) r st1) /\
+      (forall a, In a (w_cur st1) -> In a (w_cur st) \/ Codec.ident (q_rec a) = rname c) /\
+      prr_skip_ok d (w_cur st1) /\ prr_tinv (w_blocks st1) (done ++ [p ++ [j]]) /\ w_ver st1 = prr_ver_of v.
+  Proof.
+    intros Hp Hj Hskip Hlt Htb Hnew Hver. set (x := mrr_kid_spec t L (p ++ [j]) c).
+    destruct (prr_dir_names p m dl kids Hp) as [_ Hpl]. destruct (Hpl c (nth_error_In _ _ Hj)) as [N0 N1].
+    destruct (prr_kid_flags p j c N0 N1) as (F1 & F2 & F3 & F4). cbv zeta in F1, F2, F3, F4. fold x in F1, F2, F3, F4.
+    destruct (mrr_kid_place dt s Hdt Hwf p m dl kids j c Hp Hj) as (Hc & _ & r & Hplace & _ & Hce). fold x in Hplace.
+    assert (Hnm : rs_nm x = rname c) by (unfold x; destruct c; reflexivity).
+    assert (Hfirst : rs_first x = false) by (unfold x; destruct c; reflexivity).
+    pose proof (mrr_kid_good dt s Hdt Hwf p m dl kids j c Hp Hj) as G. fold x in G.
+    pose proof (prr_blk_kid dt s Hdt Hwf img' Hok Hincl p m dl kids j c Hp Hj) as Hblk. fold x in Hblk.
+    assert (Hsp : forall r0, place (mrr_pin v dt x) = Some r0 -> sp_record (pl_ce r0) = None).
+    { intros r0 Hr0. destruct (prr_complete v dt x r0 Hr0) as (_ & _ & P3 & _). rewrite Hfirst in P3. exact (proj2 P3). }
+    (* what is tracked *)
+    assert (T : exists blk b1,
+              (forall r0, place (mrr_pin v dt x) = Some r0 ->
+                 (is_some (ce_record (pl_dr r0)) = false -> blk = None /\ b1 = w_blocks st) /\
+                 (is_some (ce_record (pl_dr r0)) = true ->
+                    if qd_root d && ps_is_dot (prr_pad (mrr_drec v dt x)) then blk = None /\ b1 = w_blocks st
+                    else exists k, prr_track_ce (w_blocks st) (rs_bl x) (rs_off x) (pl_celen r0) = Some (k, b1) /\ blk = Some k)) /\
+              (blk, b1) = match m_ce (meta_of c) with
+                          | Some (i, off, len) =>
+                              let '(k, b) := prr_track_u (w_blocks st) (mrr_ce_ext t L i) off len in (Some k, b)
+                          | None => (None, w_blocks st)
+                          end /\
+              prr_tinv b1 (done ++ [p ++ [j]])).
+    { destruct (m_ce (meta_of c)) as [[[i off] len]|] eqn:Ek.
+      - destruct Hce as (Hs & -> & H0 & H1).
+        assert (Ebl : rs_bl x = mrr_ce_ext t L i /\ rs_off x = off).
+        { unfold x. destruct c; cbn [mrr_kid_spec rs_bl rs_off meta_of] in *; unfold mrr_ce_of; rewrite Ek; split; reflexivity. }
+        destruct Ebl as [E1 E2].
+        pose proof (prr_track_ce_u (w_blocks st) (mrr_ce_ext t L i) off (pl_celen r)
+                      (prr_no_overlap _ done _ c i off _ Htb Hnew Hc Ek) H1) as Htr.
+        destruct (prr_track_u (w_blocks st) (mrr_ce_ext t L i) off (pl_celen r)) as [k b] eqn:Eu.
+        exists (Some k), b. split; [|split; [reflexivity|]].
+        + intros r0 Hr0. rewrite Hplace in Hr0. injection Hr0 as <-. split; [rewrite Hs; discriminate|]. intros _.
+          rewrite F3, andb_false_r, E1, E2. exists k. split; [exact Htr|reflexivity].
+        + pose proof (prr_tinv_step _ done _ c i off _ Htb Hc Ek) as Hst. rewrite Eu in Hst. exact Hst.
+      - exists None, (w_blocks st). split; [|split; [reflexivity|]].
+        + intros r0 Hr0. rewrite Hplace in Hr0. injection Hr0 as <-. split; [auto|rewrite Hce; discriminate].
+        + apply (prr_tinv_mono _ done); [exact Htb|apply incl_appl, incl_refl]. }
+    destruct T as (blk & b1 & Htrk & Eblk & Htb1).
+    eexists. eexists. split.
+    - apply (prr_record_good dt s Hdt Hwf img' x _ d st last blk b1 G Hblk Hsp).
+      + rewrite Hfirst. apply prr_skip_ok_for; [exact Hskip|exact F3].
+      + exact Htrk.
+      + right. exact Hver.
+      + intros a Ha. rewrite Hnm. exact (Hlt a Ha).
+    - split.
+      + intros rest. cbn [prr_spec_kids]. fold x. rewrite <- Eblk. unfold prr_after. rewrite F1, F2, Hver.
+        cbn [negb]. rewrite andb_true_r. reflexivity.
+      + unfold prr_after. cbn [w_cur w_blocks w_ver]. split.
+        * intros a Ha. apply in_app_or in Ha. destruct Ha as [Ha|[<-|[]]]; [left; exact Ha|right].
+          unfold prr_spec_rec. cbn [q_rec]. exact F4.
+        * split; [apply prr_skip_ok_app; exact Hskip|]. split; [exact Htb1|reflexivity].
+  Qed.
 End Dir2.
